@@ -154,6 +154,10 @@ func (cursor *treeCursor) next(node *llrb.Node) {
 }
 
 func (cursor *treeCursor) Next() {
+	if cursor.current == nil {
+		return
+	}
+
 	if cursor.current.Right != nil {
 		cursor.next(cursor.current.Right)
 		return
